@@ -19,6 +19,7 @@ import (
 	"fmt"
 	"os"
 	"path/filepath"
+	"reflect"
 	"sort"
 	"strconv"
 	"strings"
@@ -26,6 +27,7 @@ import (
 	"sync/atomic"
 	"testing"
 	"time"
+	"unsafe"
 
 	"github.com/emersion/go-message/textproto"
 	"github.com/emersion/go-smtp"
@@ -76,28 +78,308 @@ var c12PcOf = map[string]string{
 
 var c12AutoSeen sync.Map
 
-// c12Auto: points that are not scheduling decisions of the model: the `go` statement and
-// deliveryWg.Done (merged with the step before them), clock reads outside tick, anything unknown.
-func c12Auto(label string) bool {
-	if _, ok := c12PcOf[c12Base(label)]; ok {
+// ---------------------------------------------------------------- points by what they do
+//
+// The NAME of a point (c12PcOf: exact label -> program counter of the model) is what the
+// correspondence compares.  What a parked goroutine CAN DO is decided from the kind of the
+// statement and its operand alone (lock / send / recv / select / wgwait / …), resolved against the
+// real objects by reflection: labels the table does not know (a refactored tick loop, helper
+// methods of the slot collection with their own lock, an extra critical section) are still
+// scheduled, only the model comparison diverges.
+
+type c12Alt struct{ dir, ch string } // dir: send | recv | default
+
+type c12Pt struct {
+	label, fn, kind, operand string
+	alts                     []c12Alt
+}
+
+var c12PtCache sync.Map
+
+func c12Parse(label string) *c12Pt {
+	if v, ok := c12PtCache.Load(label); ok {
+		return v.(*c12Pt)
+	}
+	p := &c12Pt{label: label}
+	rest := label
+	if i := strings.IndexByte(rest, '/'); i >= 0 {
+		p.fn, rest = rest[:i], rest[i+1:]
+	}
+	if i := strings.IndexByte(rest, ':'); i >= 0 {
+		p.operand, rest = rest[i+1:], rest[:i]
+	}
+	if i := strings.IndexByte(rest, '#'); i >= 0 {
+		rest = rest[:i]
+	}
+	p.kind = rest
+	switch p.kind {
+	case "send", "recv":
+		p.alts = []c12Alt{{p.kind, p.operand}}
+	case "select":
+		for _, a := range strings.Split(p.operand, "|") {
+			if a == "default" {
+				p.alts = append(p.alts, c12Alt{"default", ""})
+			} else if i := strings.IndexByte(a, ':'); i >= 0 {
+				p.alts = append(p.alts, c12Alt{a[:i], a[i+1:]})
+			}
+		}
+	}
+	c12PtCache.Store(label, p)
+	return p
+}
+
+// c12Clean: the same value with the "obtained through an unexported field" mark removed.
+func c12Clean(v reflect.Value) reflect.Value {
+	if v.IsValid() && v.CanAddr() {
+		return reflect.NewAt(v.Type(), unsafe.Pointer(v.UnsafeAddr())).Elem()
+	}
+	return v
+}
+
+// c12Field: field `name` of the struct v is (or points to).
+func c12Field(v reflect.Value, name string) reflect.Value {
+	v = c12Clean(v)
+	for v.IsValid() && (v.Kind() == reflect.Ptr || v.Kind() == reflect.Interface) {
+		if v.IsNil() {
+			return reflect.Value{}
+		}
+		v = c12Clean(v.Elem())
+	}
+	if !v.IsValid() || v.Kind() != reflect.Struct {
+		return reflect.Value{}
+	}
+	f := v.FieldByName(name)
+	if !f.IsValid() {
+		return f
+	}
+	return c12Clean(f)
+}
+
+var c12SlotType = reflect.TypeOf(TimeSlot{})
+
+// c12Walk calls f for every TimeSlot reachable from v (list, heap, slice, map, ring, wrapper
+// structs, embedded TimeSlot … whatever the wheel keeps its entries in).
+type c12Seen struct {
+	p uintptr
+	t reflect.Type
+}
+
+func c12Walk(v reflect.Value, seen map[c12Seen]bool, budget *int, f func(TimeSlot)) {
+	if !v.IsValid() || *budget <= 0 {
+		return
+	}
+	*budget--
+	v = c12Clean(v)
+	if v.Type() == c12SlotType {
+		if v.CanInterface() {
+			f(v.Interface().(TimeSlot))
+		}
+		return
+	}
+	switch v.Kind() {
+	case reflect.Ptr:
+		if v.IsNil() {
+			return
+		}
+		et := v.Type().Elem()
+		if et.Kind() == reflect.Struct && (et.Name() == "Queue" || et.PkgPath() == "sync" || et.PkgPath() == "time") {
+			return
+		}
+		k := c12Seen{v.Pointer(), et}
+		if seen[k] {
+			return
+		}
+		seen[k] = true
+		c12Walk(v.Elem(), seen, budget, f)
+	case reflect.Interface:
+		if !v.IsNil() {
+			c12Walk(v.Elem(), seen, budget, f)
+		}
+	case reflect.Struct:
+		switch v.Type().PkgPath() {
+		case "sync", "sync/atomic", "time":
+			return
+		}
+		if !v.CanAddr() {
+			if !v.CanInterface() {
+				return
+			}
+			c := reflect.New(v.Type()).Elem()
+			c.Set(v)
+			v = c
+		}
+		for i := 0; i < v.NumField(); i++ {
+			c12Walk(v.Field(i), seen, budget, f)
+		}
+	case reflect.Slice, reflect.Array:
+		if v.Kind() == reflect.Slice && v.IsNil() {
+			return
+		}
+		for i := 0; i < v.Len(); i++ {
+			c12Walk(v.Index(i), seen, budget, f)
+		}
+	case reflect.Map:
+		if v.IsNil() {
+			return
+		}
+		it := v.MapRange()
+		for it.Next() {
+			c12Walk(it.Key(), seen, budget, f)
+			c12Walk(it.Value(), seen, budget, f)
+		}
+	}
+}
+
+type c12Ent struct {
+	msg  int
+	time int64
+}
+
+func (e c12Ent) String() string { return fmt.Sprintf("%d@%d", e.msg, e.time) }
+
+// c12WheelEntries: the multiset of entries the real wheel holds right now.
+func c12WheelEntries(tw *TimeWheel, units func(time.Time) int64) map[c12Ent]int {
+	out := map[c12Ent]int{}
+	if tw == nil {
+		return out
+	}
+	budget := 200000
+	c12Walk(reflect.ValueOf(tw), map[c12Seen]bool{}, &budget, func(s TimeSlot) {
+		qs, ok := s.Value.(queueSlot)
+		if !ok {
+			return
+		}
+		out[c12Ent{c12MsgIdx(qs.ID), units(s.Time)}]++
+	})
+	return out
+}
+
+// c12DispatchField: the wheel's dispatch callback (a field of type func(TimeSlot)), whatever its name.
+func c12DispatchField(tw *TimeWheel) reflect.Value {
+	v := reflect.ValueOf(tw).Elem()
+	want := reflect.TypeOf((func(TimeSlot))(nil))
+	for i := 0; i < v.NumField(); i++ {
+		if v.Field(i).Type() == want {
+			return c12Clean(v.Field(i))
+		}
+	}
+	panic("c12: TimeWheel has no field of type func(TimeSlot): cannot observe dispatch callbacks")
+}
+
+// c12WrapDispatch replaces the callback by wrap(inner).
+func c12WrapDispatch(tw *TimeWheel, wrap func(inner func(TimeSlot)) func(TimeSlot)) {
+	f := c12DispatchField(tw)
+	inner := f.Interface().(func(TimeSlot))
+	f.Set(reflect.ValueOf(wrap(inner)))
+}
+
+// c12Mutexes: every sync.Mutex / sync.RWMutex that is a field of the wheel or of an object one
+// level below it.
+func c12Mutexes(tw *TimeWheel) []interface{} {
+	var out []interface{}
+	var scan func(v reflect.Value, depth int)
+	scan = func(v reflect.Value, depth int) {
+		v = c12Clean(v)
+		for v.IsValid() && v.Kind() == reflect.Ptr {
+			if v.IsNil() {
+				return
+			}
+			v = c12Clean(v.Elem())
+		}
+		if !v.IsValid() || v.Kind() != reflect.Struct || !v.CanAddr() {
+			return
+		}
+		switch m := v.Addr().Interface().(type) {
+		case *sync.Mutex:
+			out = append(out, m)
+			return
+		case *sync.RWMutex:
+			out = append(out, m)
+			return
+		}
+		if p := v.Type().PkgPath(); p == "sync" || p == "sync/atomic" || p == "time" || p == "container/list" {
+			return
+		}
+		if depth >= 2 {
+			return
+		}
+		for i := 0; i < v.NumField(); i++ {
+			scan(v.Field(i), depth+1)
+		}
+	}
+	scan(reflect.ValueOf(tw), 0)
+	return out
+}
+
+func c12LockFree(m interface{}, read bool) bool {
+	switch x := m.(type) {
+	case *sync.Mutex:
+		if x.TryLock() {
+			x.Unlock()
+			return true
+		}
+		return false
+	case *sync.RWMutex:
+		if read {
+			if x.TryRLock() {
+				x.RUnlock()
+				return true
+			}
+			return false
+		}
+		if x.TryLock() {
+			x.Unlock()
+			return true
+		}
 		return false
 	}
-	c12AutoSeen.Store(c12Base(label), true)
 	return true
+}
+
+// c12WgCounter: the counter of a sync.WaitGroup (go1.23 layout: state atomic.Uint64, high 32 bits).
+func c12WgCounter(v reflect.Value) (int, bool) {
+	st := c12Field(v, "state")
+	if st.IsValid() && st.Kind() == reflect.Struct {
+		st = c12Field(st, "v")
+	}
+	if !st.IsValid() || st.Kind() != reflect.Uint64 || !st.CanAddr() {
+		return 0, false
+	}
+	return int(int32(atomic.LoadUint64((*uint64)(unsafe.Pointer(st.UnsafeAddr()))) >> 32)), true
+}
+
+// c12Flag reads a stop flag whatever its type (uint32 used with sync/atomic, bool, atomic.Bool, …).
+func c12Flag(v reflect.Value) (bool, bool) {
+	v = c12Clean(v)
+	if !v.IsValid() {
+		return false, false
+	}
+	switch v.Kind() {
+	case reflect.Bool:
+		return v.Bool(), true
+	case reflect.Int, reflect.Int32, reflect.Int64, reflect.Int8, reflect.Int16:
+		return v.Int() != 0, true
+	case reflect.Uint, reflect.Uint32, reflect.Uint64, reflect.Uint8, reflect.Uint16:
+		return v.Uint() != 0, true
+	case reflect.Struct:
+		return c12Flag(c12Field(v, "v"))
+	}
+	return false, false
 }
 
 // ---------------------------------------------------------------- scripted target
 
 type c12Target struct {
 	mu       sync.Mutex
-	decision map[string]int   // msg id -> 0 deliver ok, 1 temporary failure   (controlled mode)
+	decision map[string]int   // msg id -> 0 terminal outcome, 1 temporary failure   (controlled mode)
 	plan     map[string][]int // free mode: outcome of attempt k
 	attempts map[string]int
 	running  map[string]int
-	okCount  map[string]int
+	okCount  map[string]int // final outcomes: accepted, or rejected for good
 	events   []string
 	viol     []string
 	yield    bool
+	stat     func(string)
 }
 
 func c12OrigID(id string) string {
@@ -107,10 +389,49 @@ func c12OrigID(id string) string {
 	return id
 }
 
+// where in the SMTP-like dialogue the scripted next hop answers with its error
+const (
+	c12AtStart = iota
+	c12AtRcpt
+	c12AtBody
+	c12AtCommit
+)
+
 type c12Delivery struct {
-	t    *c12Target
-	id   string
-	fail bool
+	t     *c12Target
+	id    string
+	err   error // nil: the message is accepted
+	stage int
+	final bool // err is a permanent rejection
+	ended bool
+}
+
+// answer with the scripted error; a permanent one is a final outcome of the message
+func (d *c12Delivery) reject() error {
+	if d.final {
+		d.final = false
+		d.t.mu.Lock()
+		d.t.okCount[d.id]++
+		d.t.mu.Unlock()
+	}
+	return d.err
+}
+
+var c12StageName = []string{"start", "rcpt", "body", "commit"}
+
+// c12Outcome: what attempt k of message id answers.  fail = temporary failure (the queue retries or
+// gives up at max_tries); otherwise the outcome is final: delivered, or (every third final outcome)
+// a permanent rejection.  The stage of the dialogue at which the error comes is a function of
+// (message, attempt): all four are exercised, a replay sees the same ones.
+func c12Outcome(id string, k int, fail bool) (error, int) {
+	h := k*5 + c12MsgIdx(id)*3
+	if fail {
+		return exterrors.WithTemporary(errors.New("c12: try later"), true), h % 4
+	}
+	if h%3 == 2 {
+		return exterrors.WithTemporary(errors.New("c12: rejected for good"), false), (h / 3) % 4
+	}
+	return nil, 0
 }
 
 func (t *c12Target) Start(ctx context.Context, msgMeta *module.MsgMetadata, mailFrom string) (module.Delivery, error) {
@@ -135,25 +456,55 @@ func (t *c12Target) Start(ctx context.Context, msgMeta *module.MsgMetadata, mail
 	} else {
 		fail = t.decision[id] == 1
 	}
-	return &c12Delivery{t: t, id: id, fail: fail}, nil
+	d := &c12Delivery{t: t, id: id}
+	d.err, d.stage = c12Outcome(id, k, fail)
+	d.final = d.err != nil && !fail
+	if t.stat != nil {
+		switch {
+		case d.err == nil:
+			t.stat("target.accepted")
+		case fail:
+			t.stat("target.temporary-error-at-" + c12StageName[d.stage])
+		default:
+			t.stat("target.permanent-error-at-" + c12StageName[d.stage])
+		}
+	}
+	if d.err != nil && d.stage == c12AtStart {
+		t.running[id]--
+		if d.final {
+			t.okCount[id]++
+		}
+		return nil, d.err
+	}
+	return d, nil
 }
 
 func (d *c12Delivery) AddRcpt(ctx context.Context, to string, _ smtp.RcptOptions) error {
-	if d.fail {
-		return exterrors.WithTemporary(errors.New("c12: try later"), true)
+	if d.err != nil && d.stage == c12AtRcpt {
+		return d.reject()
 	}
 	return nil
 }
 func (d *c12Delivery) Body(ctx context.Context, header textproto.Header, body buffer.Buffer) error {
+	if d.err != nil && d.stage == c12AtBody {
+		return d.reject()
+	}
 	return nil
 }
 func (d *c12Delivery) end() {
 	d.t.mu.Lock()
-	d.t.running[d.id]--
+	if !d.ended {
+		d.ended = true
+		d.t.running[d.id]--
+	}
 	d.t.mu.Unlock()
 }
 func (d *c12Delivery) Abort(ctx context.Context) error { d.end(); return nil }
 func (d *c12Delivery) Commit(ctx context.Context) error {
+	if d.err != nil && d.stage == c12AtCommit {
+		d.end() // the queue does not call Abort after a failed Commit
+		return d.reject()
+	}
 	d.t.mu.Lock()
 	d.t.okCount[d.id]++
 	d.t.mu.Unlock()
@@ -238,7 +589,7 @@ func c12ReadSpool(dir string, n int) []c12SpoolState {
 			continue
 		}
 		switch ext {
-		case ".meta":
+		case ".meta", ".meta_hidden": // _hidden: the harness itself made the entry unopenable for a while
 			out[i].meta = true
 		case ".header":
 			out[i].header = true
@@ -266,6 +617,7 @@ type c12Disp struct {
 	time     int64
 	now      int64
 	afterEnd bool
+	mem      bool // the entry carries the message (Commit): Queue.dispatch does not open the spool entry
 }
 
 type c12World struct {
@@ -280,16 +632,22 @@ type c12World struct {
 	thr           []*c12sched.G
 	kind          []string
 	msgOf         []int // message of thread i
-	wg            int
-	closedSeen    bool
+	wg            int   // deliveryWg as the harness counts it (fallback when the real counter cannot be read)
+	closed        map[uintptr]bool
 	closeReturned bool
 	disp          []c12Disp
-	pushes        map[int]int
+	pushedE       map[c12Ent]int // entries seen to appear in the real wheel
 	terminal      map[int]bool
 	discardSeen   bool
 	dispDone      int
 	lateAttempts  []string
+	tickAlive     string
 	hang          string
+	bad           map[int]func() // attempt goroutine -> restore the spool entry that was made unopenable for it
+	hidden        []func()
+	resolved      map[string]reflect.Value
+	mutexes       []interface{}
+	lastEntries   map[c12Ent]int
 }
 
 func (w *c12World) pc(g *c12sched.G) string {
@@ -305,24 +663,281 @@ func (w *c12World) pc(g *c12sched.G) string {
 	if p, ok := c12PcOf[c12Base(g.Label)]; ok {
 		return p
 	}
-	return "?" + g.Label
+	return "?" + c12Base(g.Label)
 }
 
+func (w *c12World) wheel() *TimeWheel {
+	if w.q == nil {
+		return nil
+	}
+	return w.q.wheel
+}
+
+// mutexFree: nobody is inside a critical section of the wheel.
 func (w *c12World) mutexFree() bool {
-	if w.q.wheel.slotsLock.TryLock() {
-		w.q.wheel.slotsLock.Unlock()
+	if w.wheel() == nil {
 		return true
+	}
+	if w.mutexes == nil {
+		w.mutexes = c12Mutexes(w.wheel())
+	}
+	for _, m := range w.mutexes {
+		if !c12LockFree(m, false) {
+			return false
+		}
+	}
+	return true
+}
+
+// resolve: the object an operand of a synchronisation statement ("tw.slotsLock", "q.deliveryWg",
+// "&tw.stopped", "h.mu" in a helper method) denotes: the path after the receiver is followed from the
+// wheel, from the queue, and from the objects the wheel's fields hold.
+var c12OperandClean = strings.NewReplacer("&", "", "*", "", "(", "", ")", "")
+
+func (w *c12World) resolve(operand string) reflect.Value {
+	tw := w.wheel()
+	if tw != nil {
+		if v, ok := w.resolved[operand]; ok {
+			return v // the field itself (its storage): what it holds is read when it is used
+		}
+	}
+	v := w.resolve1(operand)
+	if tw != nil {
+		w.resolved[operand] = v
+	}
+	return v
+}
+
+func (w *c12World) resolve1(operand string) reflect.Value {
+	parts := strings.Split(c12OperandClean.Replace(operand), ".")
+	if len(parts) < 2 || w.q == nil {
+		return reflect.Value{}
+	}
+	follow := func(v reflect.Value) reflect.Value {
+		for _, p := range parts[1:] {
+			v = c12Field(v, p)
+			if !v.IsValid() {
+				return v
+			}
+		}
+		return v
+	}
+	var roots []reflect.Value
+	if tw := w.wheel(); tw != nil {
+		roots = append(roots, reflect.ValueOf(tw).Elem())
+	}
+	roots = append(roots, reflect.ValueOf(w.q).Elem())
+	for _, r := range roots {
+		if v := follow(r); v.IsValid() {
+			return v
+		}
+	}
+	if tw := w.wheel(); tw != nil {
+		r := reflect.ValueOf(tw).Elem()
+		for i := 0; i < r.NumField(); i++ {
+			f := c12Clean(r.Field(i))
+			for f.IsValid() && f.Kind() == reflect.Ptr && !f.IsNil() {
+				f = c12Clean(f.Elem())
+			}
+			if f.IsValid() && f.Kind() == reflect.Struct && f.Type().PkgPath() != "sync" && f.Type().PkgPath() != "time" {
+				if v := follow(f); v.IsValid() {
+					return v
+				}
+			}
+		}
+	}
+	return reflect.Value{}
+}
+
+func (w *c12World) chanOf(operand string) (reflect.Value, bool) {
+	v := w.resolve(operand)
+	if v.IsValid() && v.Kind() == reflect.Chan {
+		return v, true
+	}
+	return v, false
+}
+
+func (w *c12World) isTimerAlt(a c12Alt) bool {
+	if a.dir != "recv" {
+		return false
+	}
+	if _, ok := w.chanOf(a.ch); ok {
+		return false
+	}
+	return strings.HasSuffix(a.ch, ".C") || strings.Contains(a.ch, "After(") || strings.Contains(a.ch, "Tick(")
+}
+
+// soloAlt: can this communication complete without another goroutine arriving?
+func (w *c12World) soloAlt(a c12Alt) bool {
+	if a.dir == "default" {
+		return true
+	}
+	ch, ok := w.chanOf(a.ch)
+	if !ok || ch.IsNil() {
+		return false // unknown channel (a timer: see kt) or nil channel: blocks
+	}
+	if w.closed[ch.Pointer()] {
+		return true // receive of the zero value; a send panics (which is a step, too)
+	}
+	if a.dir == "send" {
+		return ch.Len() < ch.Cap()
+	}
+	return ch.Len() > 0
+}
+
+func (w *c12World) wgOf(operand string) (int, bool) {
+	if v := w.resolve(operand); v.IsValid() {
+		if n, ok := c12WgCounter(v); ok {
+			return n, true
+		}
+	}
+	return 0, false
+}
+
+// wgReal: the real counter of the queue's delivery WaitGroup (first sync.WaitGroup field of Queue).
+func (w *c12World) wgReal() int {
+	v := reflect.ValueOf(w.q).Elem()
+	wt := reflect.TypeOf(sync.WaitGroup{})
+	for i := 0; i < v.NumField(); i++ {
+		if v.Field(i).Type() == wt {
+			if n, ok := c12WgCounter(v.Field(i)); ok {
+				return n
+			}
+		}
+	}
+	return w.wg
+}
+
+// solo: the goroutine parked before this statement can execute it now without a partner.
+// Written from Go's semantics of the primitive, probing the real objects; not from the model.
+func (w *c12World) solo(p *c12Pt) bool {
+	if p == nil {
+		return false
+	}
+	switch p.kind {
+	case "lock":
+		v := w.resolve(p.operand)
+		if v.IsValid() && v.Kind() == reflect.Ptr && !v.IsNil() {
+			v = c12Clean(v.Elem())
+		}
+		if v.IsValid() && v.CanAddr() {
+			return c12LockFree(v.Addr().Interface(), strings.Contains(p.label, "RLock"))
+		}
+		return w.mutexFree()
+	case "send", "recv", "select":
+		for _, a := range p.alts {
+			if w.soloAlt(a) {
+				return true
+			}
+		}
+		return false
+	case "wgwait":
+		if n, ok := w.wgOf(p.operand); ok {
+			return n == 0
+		}
+		return w.wg == 0
+	}
+	return true // atomic, unlock, close, clock read, timer creation, wgadd, go, entry, deliver
+}
+
+// meet: snd is parked before a send on an unbuffered, open channel and rcv before a receive from
+// the same channel: both together can take one joint step (rendezvous).
+func (w *c12World) meet(snd, rcv *c12Pt) bool {
+	if snd == nil || rcv == nil {
+		return false
+	}
+	for _, a := range snd.alts {
+		if a.dir != "send" {
+			continue
+		}
+		ch, ok := w.chanOf(a.ch)
+		if !ok || ch.IsNil() || ch.Cap() != 0 || w.closed[ch.Pointer()] {
+			continue
+		}
+		for _, b := range rcv.alts {
+			if b.dir != "recv" {
+				continue
+			}
+			if ch2, ok := w.chanOf(b.ch); ok && !ch2.IsNil() && ch2.Pointer() == ch.Pointer() {
+				return true
+			}
+		}
 	}
 	return false
 }
 
+func (w *c12World) pt(g *c12sched.G) *c12Pt {
+	if g == nil || g.Finished || g.Label == "" {
+		return nil
+	}
+	return c12Parse(g.Label)
+}
+
+// passed: bookkeeping for a point a goroutine goes through (parked and granted, or not parked at all).
+func (w *c12World) passed(p *c12Pt) {
+	switch p.kind {
+	case "close":
+		if ch, ok := w.chanOf(p.operand); ok && !ch.IsNil() {
+			w.closed[ch.Pointer()] = true
+		}
+	case "wgadd":
+		w.wg++
+	case "wgdone":
+		w.wg--
+	}
+}
+
+// auto: which points are passed without a scheduling decision.  Everything the table names is a
+// decision; so is any other statement that may block (lock, channel operation, WaitGroup.Wait) on an
+// object of the wheel or the queue; the rest (the `go` statement, deliveryWg.Done, clock reads outside
+// tick, non-blocking statements the table does not know) is merged into the step before it.
+func (w *c12World) auto(label string) bool {
+	base := c12Base(label)
+	if _, ok := c12PcOf[base]; ok {
+		return false
+	}
+	p := c12Parse(label)
+	switch p.kind {
+	case "lock", "wgwait":
+		if w.resolve(p.operand).IsValid() {
+			return false
+		}
+	case "send", "recv", "select":
+		for _, a := range p.alts {
+			if _, ok := w.chanOf(a.ch); ok {
+				return false
+			}
+		}
+	}
+	c12AutoSeen.Store(base, true)
+	w.passed(p)
+	return true
+}
+
+func (w *c12World) entries() map[c12Ent]int {
+	return c12WheelEntries(w.wheel(), w.ctl.Units)
+}
+
 func (w *c12World) grant(gs ...*c12sched.G) {
+	before := w.lastEntries
+	for _, g := range gs {
+		if p := w.pt(g); p != nil {
+			w.passed(p)
+		}
+	}
 	if !w.ctl.Grant(gs...) {
 		var where []string
 		for _, g := range gs {
 			where = append(where, g.Name+"@"+g.Label)
 		}
 		w.hang = strings.Join(where, "+")
+		return
+	}
+	w.lastEntries = w.entries()
+	for e, n := range w.lastEntries {
+		if n > before[e] {
+			w.pushedE[e] += n - before[e]
+		}
 	}
 	for _, g := range w.thr {
 		if !g.Finished && w.pc(g) == "discard" {
@@ -332,17 +947,20 @@ func (w *c12World) grant(gs ...*c12sched.G) {
 	if w.clo != nil && w.clo.Finished && !w.closeReturned {
 		w.closeReturned = true
 		// Close returns only after every in-flight attempt has finished (nothing of the old process
-		// touches the spool once the restart may begin)
+		// touches the spool once the restart may begin), and the scheduler goroutine is gone
 		for i, g := range w.thr {
 			if w.kind[i] == "a" && !g.Finished {
 				w.lateAttempts = append(w.lateAttempts, fmt.Sprintf("attempt goroutine %d (message %d) still at %s", i, w.msgOf[i], w.pc(g)))
 			}
 		}
+		if w.tick != nil && !w.tick.Finished {
+			w.tickAlive = w.pc(w.tick)
+		}
 	}
 }
 
 type c12Tok struct {
-	kind string // t c k kt ku ks a
+	kind string // t c k kb kt ku ks a
 	i    int
 	c    int
 }
@@ -354,6 +972,9 @@ func c12ParseTok(s string) (c12Tok, bool) {
 	case strings.HasPrefix(s, "ku"):
 		v, err := strconv.Atoi(s[2:])
 		return c12Tok{kind: "ku", i: v}, err == nil
+	case strings.HasPrefix(s, "kb"):
+		v, err := strconv.Atoi(s[2:])
+		return c12Tok{kind: "kb", c: v}, err == nil
 	case strings.HasPrefix(s, "a"):
 		v, err := strconv.Atoi(s[1:])
 		return c12Tok{kind: "a", c: v}, err == nil
@@ -373,6 +994,8 @@ func (t c12Tok) String() string {
 	switch t.kind {
 	case "ku":
 		return "ku" + strconv.Itoa(t.i)
+	case "kb":
+		return "kb" + strconv.Itoa(t.c)
 	case "a":
 		return "a" + strconv.Itoa(t.c)
 	case "t":
@@ -381,13 +1004,14 @@ func (t c12Tok) String() string {
 	return t.kind
 }
 
-func (w *c12World) tickWaiting() bool {
-	p := w.pc(w.tick)
-	return p == "waitEmpty" || p == "waitTimer"
+// atDispatch: the tick goroutine is about to run Queue.dispatch's deliveryWg.Add + go for the entry
+// the callback was just called with.
+func (w *c12World) atDispatch() bool {
+	p := w.pt(w.tick)
+	return p != nil && p.kind == "wgadd" && strings.HasPrefix(p.fn, "Queue.dispatch") && len(w.disp) > w.dispDone
 }
 
-// can: is the step enabled?  Written from Go's semantics of the primitive at the point the
-// goroutine is parked at (probing the real objects where that is possible), not from the model.
+// can: is the step enabled?
 func (w *c12World) can(t c12Tok) bool {
 	if w.hang != "" {
 		return false
@@ -399,53 +1023,81 @@ func (w *c12World) can(t c12Tok) bool {
 		if t.i < 0 || t.i >= len(w.thr) {
 			return false
 		}
-		g := w.thr[t.i]
-		switch w.pc(g) {
-		case "acquire":
-			return len(w.q.deliverySemaphore) < cap(w.q.deliverySemaphore)
-		case "deliver", "check", "push", "discard":
-			return true
-		case "lock":
-			return w.mutexFree()
-		case "send":
-			return w.closedSeen
-		case "release":
-			return len(w.q.deliverySemaphore) > 0
-		}
-		return false
+		return w.solo(w.pt(w.thr[t.i]))
 	case "c":
-		switch w.pc(w.clo) {
-		case "setStopped", "closeChan":
-			return true
-		case "wgWait":
-			return w.wg == 0
-		}
-		return false
+		return w.solo(w.pt(w.clo))
 	case "k":
-		switch w.pc(w.tick) {
-		case "top", "scan", "mkTimer", "rm", "dispatch":
-			return true
-		case "scanLock", "rmLock":
-			return w.mutexFree()
-		case "ack":
-			return w.pc(w.clo) == "recvAck"
-		}
-		return false
+		p := w.pt(w.tick)
+		return w.solo(p) || (p != nil && p.kind == "send" && w.meet(p, w.pt(w.clo)))
+	case "kb":
+		// the environment can make the spool entry unopenable only when the entry does not carry the message
+		return t.c >= 1 && t.c <= 3 && w.atDispatch() && !w.disp[len(w.disp)-1].mem && w.solo(w.pt(w.tick))
 	case "kt":
-		if w.pc(w.tick) != "waitTimer" {
+		p := w.pt(w.tick)
+		if p == nil {
 			return false
 		}
-		tm := w.ctl.LiveTimer()
-		return tm != nil && tm.Deadline <= w.ctl.VNow()
+		for _, a := range p.alts {
+			if w.isTimerAlt(a) {
+				tm := w.ctl.LiveTimer()
+				return tm != nil && tm.Deadline <= w.ctl.VNow()
+			}
+		}
+		return false
 	case "ku":
 		if t.i < 0 || t.i >= len(w.thr) {
 			return false
 		}
-		return w.tickWaiting() && w.pc(w.thr[t.i]) == "send"
+		return w.meet(w.pt(w.thr[t.i]), w.pt(w.tick))
 	case "ks":
-		return w.tickWaiting() && w.pc(w.clo) == "sendStop"
+		return w.meet(w.pt(w.clo), w.pt(w.tick))
 	}
 	return false
+}
+
+// hide makes the spool entry of message m unopenable (kind 1: meta-data file missing, 2: meta-data
+// undecodable, 3: header undecodable — none of them makes openMessage remove anything) and returns
+// the function that restores it.
+func (w *c12World) hide(m int, kind int) func() {
+	id := c12MsgID(m)
+	var restore func()
+	switch kind {
+	case 1:
+		from, to := filepath.Join(w.dir, id+".meta"), filepath.Join(w.dir, id+".meta_hidden")
+		if os.Rename(from, to) != nil {
+			return func() {}
+		}
+		restore = func() { os.Rename(to, from) }
+	default:
+		path := filepath.Join(w.dir, id+".meta")
+		garbage := []byte("{\"MsgMeta\": [")
+		if kind == 3 {
+			path = filepath.Join(w.dir, id+".header")
+			garbage = []byte("this is not a header field\r\n\r\n")
+		}
+		orig, err := os.ReadFile(path)
+		if err != nil || os.WriteFile(path, garbage, 0o600) != nil {
+			return func() {}
+		}
+		restore = func() { os.WriteFile(path, orig, 0o600) }
+	}
+	done := false
+	r := func() {
+		if !done {
+			done = true
+			restore()
+		}
+	}
+	w.hidden = append(w.hidden, r)
+	return r
+}
+
+func (w *c12World) restoreAll() {
+	for _, r := range w.hidden {
+		r()
+	}
+	w.hidden = nil
+	w.bad = map[int]func(){}
 }
 
 func (w *c12World) do(t c12Tok) {
@@ -471,7 +1123,7 @@ func (w *c12World) do(t c12Tok) {
 			if w.pc(g) == "release" || g.Finished {
 				w.terminal[w.msgOf[t.i]] = true
 				if t.c == 0 {
-					w.out.Stat("sched.deliver.delivered")
+					w.out.Stat("sched.deliver.final-outcome")
 				} else {
 					w.out.Stat("sched.deliver.max-tries-reached")
 				}
@@ -488,35 +1140,52 @@ func (w *c12World) do(t c12Tok) {
 		case "send":
 			w.grant(g)
 			w.out.Stat("sched.add.released-by-close")
-		case "push":
-			w.pushes[w.msgOf[t.i]]++
+		case "acquire":
 			w.grant(g)
-		case "release":
-			w.wg--
-			w.grant(g)
+			if _, isBad := w.bad[t.i]; isBad {
+				if w.pc(g) == "release" {
+					w.out.Stat("sched.open-failed.attempt-ended-in-deferred-function")
+				} else {
+					w.out.Stat("sched.open-failed.attempt-at-" + w.pc(g))
+				}
+			}
 		default:
 			w.grant(g)
+		}
+		// the window in which the entry could not be opened ends with the attempt's first step
+		if r, ok := w.bad[t.i]; ok {
+			r()
+			delete(w.bad, t.i)
 		}
 	case "c":
-		if w.pc(w.clo) == "closeChan" {
-			w.closedSeen = true
-		}
 		w.grant(w.clo)
-	case "k":
-		switch w.pc(w.tick) {
-		case "ack":
-			w.grant(w.tick, w.clo)
-		case "dispatch":
+	case "k", "kb":
+		if w.atDispatch() {
 			// the model's dispatch step is deliveryWg.Add + go: stamp the callback with the clock of this step
-			if n := len(w.disp); n > 0 {
-				w.disp[n-1].now = w.ctl.VNow()
-				w.disp[n-1].afterEnd = w.closeReturned
-				w.dispDone = n
+			n := len(w.disp)
+			w.disp[n-1].now = w.ctl.VNow()
+			w.disp[n-1].afterEnd = w.closeReturned
+			w.dispDone = n
+			var restore func()
+			if t.kind == "kb" {
+				restore = w.hide(w.disp[n-1].msg, t.c)
+				w.out.Stat(fmt.Sprintf("sched.open-failed.kind-%d", t.c))
 			}
-			w.wg++
+			nthr := len(w.thr)
 			w.grant(w.tick)
-		default:
+			if restore != nil {
+				if len(w.thr) > nthr && !w.thr[nthr].Finished {
+					w.bad[nthr] = restore
+				} else {
+					restore() // no goroutine, or it is gone already
+				}
+			}
+			return
+		}
+		if p := w.pt(w.tick); w.solo(p) {
 			w.grant(w.tick)
+		} else {
+			w.grant(w.tick, w.clo) // the acknowledgement of the stop request
 		}
 	case "kt":
 		w.ctl.LiveTimer().Fire()
@@ -528,6 +1197,23 @@ func (w *c12World) do(t c12Tok) {
 	case "ks":
 		w.grant(w.clo, w.tick)
 	}
+}
+
+func (w *c12World) stopped() string {
+	if tw := w.wheel(); tw != nil {
+		v := reflect.ValueOf(tw).Elem()
+		for i := 0; i < v.NumField(); i++ {
+			if strings.Contains(strings.ToLower(v.Type().Field(i).Name), "stop") && v.Field(i).Kind() != reflect.Chan {
+				if b, ok := c12Flag(v.Field(i)); ok {
+					if b {
+						return "1"
+					}
+					return "0"
+				}
+			}
+		}
+	}
+	return "?"
 }
 
 func (w *c12World) observe(bits string) string {
@@ -544,15 +1230,27 @@ func (w *c12World) observe(bits string) string {
 	for i, g := range w.thr {
 		thr = append(thr, w.kind[i]+":"+w.pc(g))
 	}
-	// the list is only looked at while nobody is inside a critical section (the code does the list
-	// operation right after Lock, the model right before Unlock: same thing for every observer)
+	// the collection is only looked at while nobody is inside a critical section (the code does the
+	// operation right after Lock, the model right before Unlock: same thing for every observer); as a
+	// multiset, sorted: the real collection may be a list, a heap, a map …
 	var slots []string
 	if !w.mutexFree() {
 		slots = []string{"locked"}
 	} else {
-		for e := w.q.wheel.slots.Front(); e != nil; e = e.Next() {
-			s := e.Value.(TimeSlot)
-			slots = append(slots, fmt.Sprintf("%d@%d", c12MsgIdx(s.Value.(queueSlot).ID), w.ctl.Units(s.Time)))
+		var es []c12Ent
+		for e, n := range w.entries() {
+			for ; n > 0; n-- {
+				es = append(es, e)
+			}
+		}
+		sort.Slice(es, func(i, j int) bool {
+			if es[i].msg != es[j].msg {
+				return es[i].msg < es[j].msg
+			}
+			return es[i].time < es[j].time
+		})
+		for _, e := range es {
+			slots = append(slots, e.String())
 		}
 	}
 	var disp []string
@@ -573,12 +1271,6 @@ func (w *c12World) observe(bits string) string {
 	if w.clo != nil {
 		clo = w.pc(w.clo)
 	}
-	b := func(x bool) string {
-		if x {
-			return "1"
-		}
-		return "0"
-	}
 	if bits == "" {
 		bits = "-"
 	}
@@ -587,8 +1279,8 @@ func (w *c12World) observe(bits string) string {
 		tick = "exited"
 	}
 	return fmt.Sprintf("en=%s now=%d stopped=%s tick=%s closer=%s thr=%s slots=%s disp=%s broken=%s removed=%s wg=%d sem=%d crashed=0",
-		bits, w.ctl.VNow(), b(atomic.LoadUint32(&w.q.wheel.stopped) == 1), tick, clo, join(thr), join(slots), join(disp),
-		join(broken), join(removed), w.wg, len(w.q.deliverySemaphore))
+		bits, w.ctl.VNow(), w.stopped(), tick, clo, join(thr), join(slots), join(disp),
+		join(broken), join(removed), w.wgReal(), len(w.q.deliverySemaphore))
 }
 
 func c12ParseScn(toks []string) (c12Scn, []c12Tok, bool) {
@@ -649,13 +1341,14 @@ func (s c12Scn) opPrefix() string {
 }
 
 func c12Setup(out *vh.Out, scn c12Scn) *c12World {
-	w := &c12World{out: out, scn: scn, pushes: map[int]int{}, terminal: map[int]bool{}}
+	w := &c12World{out: out, scn: scn, pushedE: map[c12Ent]int{}, terminal: map[int]bool{}, closed: map[uintptr]bool{}, bad: map[int]func(){}, resolved: map[string]reflect.Value{}}
 	w.dir = c12TempDir()
 	w.ctl = c12sched.NewControlled()
-	w.ctl.Auto = c12Auto
+	w.ctl.Auto = w.auto
 	w.ctl.Timeout = 20 * time.Second
 	w.tgt = c12NewTarget()
 	w.tgt.yield = true
+	w.tgt.stat = out.Stat
 	w.q = c12NewQueue(w.dir, w.tgt, scn.budget+1)
 	var spawnMu sync.Mutex
 	w.ctl.OnSpawn = func(parent, child *c12sched.G) {
@@ -667,7 +1360,7 @@ func c12Setup(out *vh.Out, scn c12Scn) *c12World {
 		switch {
 		case strings.HasPrefix(child.Name, "NewTimeWheel/go"):
 			w.tick = child
-		case strings.HasPrefix(child.Name, "Queue.dispatch/go"):
+		case strings.HasPrefix(child.Name, "Queue.dispatch"):
 			w.thr = append(w.thr, child)
 			w.kind = append(w.kind, "a")
 			msg := -1
@@ -686,11 +1379,13 @@ func c12Setup(out *vh.Out, scn c12Scn) *c12World {
 		return w
 	}
 	// record dispatch callbacks (entry, its time, clock)
-	inner := w.q.wheel.dispatch
-	w.q.wheel.dispatch = func(s TimeSlot) {
-		w.disp = append(w.disp, c12Disp{msg: c12MsgIdx(s.Value.(queueSlot).ID), time: w.ctl.Units(s.Time), now: w.ctl.VNow(), afterEnd: w.closeReturned})
-		inner(s)
-	}
+	c12WrapDispatch(w.q.wheel, func(inner func(TimeSlot)) func(TimeSlot) {
+		return func(s TimeSlot) {
+			qs, _ := s.Value.(queueSlot)
+			w.disp = append(w.disp, c12Disp{msg: c12MsgIdx(qs.ID), time: w.ctl.Units(s.Time), now: w.ctl.VNow(), afterEnd: w.closeReturned, mem: qs.Meta != nil})
+			inner(s)
+		}
+	})
 	for i, t := range scn.times {
 		i, t := i, t
 		var fn func()
@@ -741,6 +1436,18 @@ func (w *c12World) candidates(r *vh.Rng) []c12Tok {
 		c = append(c, c12Tok{kind: "t", i: len(w.thr) + r.Intn(2)}, c12Tok{kind: "ku", i: len(w.thr)})
 	}
 	c = append(c, c12Tok{kind: "c"}, c12Tok{kind: "k"}, c12Tok{kind: "k"}, c12Tok{kind: "kt"}, c12Tok{kind: "ks"})
+	if w.atDispatch() {
+		// the message of the entry being handed over cannot be opened (entries that carry their message
+		// included, now and then: the choice is not enabled for them)
+		if !w.disp[len(w.disp)-1].mem && r.Chance(60) {
+			kb := c12Tok{kind: "kb", c: 1 + r.Intn(3)}
+			c = append(c, kb, kb, kb)
+		} else if r.Chance(10) {
+			c = append(c, c12Tok{kind: "kb", c: 1 + r.Intn(3)})
+		}
+	} else if r.Chance(3) {
+		c = append(c, c12Tok{kind: "kb", c: r.Intn(5)})
+	}
 	if r.Chance(12) {
 		c = append(c, c12Tok{kind: "a", c: 1 + r.Intn(4)})
 	}
@@ -777,8 +1484,8 @@ func c12RunControlled(out *vh.Out, scn c12Scn, sched []c12Tok, r *vh.Rng, steps 
 			} else {
 				what = "t.no-such-goroutine"
 			}
-		case "k":
-			what = "k." + pcBefore(w.tick)
+		case "k", "kb":
+			what = t.kind + "." + pcBefore(w.tick)
 		case "c":
 			what = "c." + pcBefore(w.clo)
 		}
@@ -791,7 +1498,7 @@ func c12RunControlled(out *vh.Out, scn c12Scn, sched []c12Tok, r *vh.Rng, steps 
 			wasSet := w.pc(w.clo) == "setStopped"
 			exec(t)
 			if wasSet && w.pc(w.clo) != "setStopped" {
-				inflightAtStop = w.wg
+				inflightAtStop = w.wgReal()
 			}
 		}
 	} else {
@@ -801,7 +1508,7 @@ func c12RunControlled(out *vh.Out, scn c12Scn, sched []c12Tok, r *vh.Rng, steps 
 			if r.Chance(88) {
 				var en []c12Tok
 				for _, c := range cands {
-					if c.kind == "c" && w.pc(w.clo) == "setStopped" && (n < closeAfter || (w.wg < closeInflight && n < steps-25)) {
+					if c.kind == "c" && w.pc(w.clo) == "setStopped" && (n < closeAfter || (w.wgReal() < closeInflight && n < steps-25)) {
 						continue
 					}
 					if w.can(c) {
@@ -823,14 +1530,14 @@ func c12RunControlled(out *vh.Out, scn c12Scn, sched []c12Tok, r *vh.Rng, steps 
 				}
 			} else {
 				t = cands[r.Intn(len(cands))]
-				if t.kind == "c" && w.pc(w.clo) == "setStopped" && (n < closeAfter || (w.wg < closeInflight && n < steps-25)) {
+				if t.kind == "c" && w.pc(w.clo) == "setStopped" && (n < closeAfter || (w.wgReal() < closeInflight && n < steps-25)) {
 					t = c12Tok{kind: "k"}
 				}
 			}
 			wasSet := w.pc(w.clo) == "setStopped"
 			exec(t)
 			if wasSet && w.pc(w.clo) != "setStopped" {
-				inflightAtStop = w.wg
+				inflightAtStop = w.wgReal()
 			}
 		}
 	}
@@ -841,6 +1548,7 @@ func c12RunControlled(out *vh.Out, scn c12Scn, sched []c12Tok, r *vh.Rng, steps 
 	op := scn.opPrefix() + " " + s
 	out.Corr(op, w.observe(bits.String()))
 	if w.hang != "" {
+		w.restoreAll()
 		out.Violation("C12/hang", op, "goroutine did not reach its next synchronisation point: "+w.hang)
 		return
 	}
@@ -856,7 +1564,7 @@ func c12RunControlled(out *vh.Out, scn c12Scn, sched []c12Tok, r *vh.Rng, steps 
 		out.Stat("sched.thr-at-end." + w.pc(g))
 	}
 
-	// ---- monitor part 1: drain.  Everything that can move is moved (attempts end with a terminal
+	// ---- monitor part 1: drain.  Everything that can move is moved (attempts end with a final
 	// outcome, the clock is advanced when only a timer is pending) until nothing is enabled.
 	for n := 0; n < 5000 && w.hang == ""; n++ {
 		var t *c12Tok
@@ -876,9 +1584,9 @@ func c12RunControlled(out *vh.Out, scn c12Scn, sched []c12Tok, r *vh.Rng, steps 
 		}
 		try(c12Tok{kind: "kt"})
 		if t == nil {
-			if w.pc(w.tick) == "waitTimer" {
-				if tm := w.ctl.LiveTimer(); tm != nil && tm.Deadline > w.ctl.VNow() {
-					w.ctl.Advance(tm.Deadline - w.ctl.VNow())
+			if tm := w.ctl.LiveTimer(); tm != nil && tm.Deadline > w.ctl.VNow() && !w.tick.Finished {
+				w.ctl.Advance(tm.Deadline - w.ctl.VNow())
+				if w.can(c12Tok{kind: "kt"}) {
 					continue
 				}
 			}
@@ -886,6 +1594,7 @@ func c12RunControlled(out *vh.Out, scn c12Scn, sched []c12Tok, r *vh.Rng, steps 
 		}
 		w.do(*t)
 	}
+	w.restoreAll()
 	if w.hang != "" {
 		out.Violation("C12/hang", op, "while draining: "+w.hang)
 		return
@@ -898,10 +1607,12 @@ func c12Monitor(w *c12World, op string) {
 	out := w.out
 	// shutdown terminates; nobody is left blocked
 	if w.clo != nil && !w.clo.Finished {
-		out.Violation("C12/close-hang", op, "Queue.Close blocked at "+w.pc(w.clo)+" with nothing left to run; tick at "+w.pc(w.tick))
+		out.Violation("C12/close-hang", op, fmt.Sprintf("Queue.Close blocked at %s with nothing left to run; tick at %s; deliveryWg counter %d", w.pc(w.clo), w.pc(w.tick), w.wgReal()))
 	}
+	alive := 0
 	for i, g := range w.thr {
 		if !g.Finished {
+			alive++
 			out.Violation("C12/goroutine-stuck", op, fmt.Sprintf("goroutine %d (%s) blocked forever at %s", i, w.kind[i], w.pc(g)))
 		}
 		if g.Panic != nil {
@@ -917,10 +1628,26 @@ func c12Monitor(w *c12World, op string) {
 	if w.discardSeen {
 		out.Violation("C12/panic", op, "a panic was recovered in the dispatch goroutine (discardBroken entered)")
 	}
-	// dispatch once, not early, not after Close returned
+	if w.tickAlive != "" {
+		out.Violation("C12/scheduler-alive-after-close", op, "Queue.Close returned while the tick goroutine was still running (at "+w.tickAlive+"): it goes on dispatching")
+	}
+	// every dispatch ends with deliveryWg.Done and the semaphore released, whatever happened to it
+	if alive == 0 {
+		if n := w.wgReal(); n != 0 {
+			out.Violation("C12/waitgroup-leak", op, fmt.Sprintf("every dispatch goroutine has ended but the deliveryWg counter is %d: Queue.Close blocks for ever", n))
+		}
+		if n := len(w.q.deliverySemaphore); n != 0 {
+			out.Violation("C12/semaphore-leak", op, fmt.Sprintf("every dispatch goroutine has ended but %d delivery slots are still taken", n))
+		}
+	}
+	// dispatch once, not early, not after Close returned: per entry …
+	left := w.entries()
+	dispE := map[c12Ent]int{}
 	nd := map[int]int{}
+	pushes := map[int]int{}
 	for _, d := range w.disp {
 		nd[d.msg]++
+		dispE[c12Ent{d.msg, d.time}]++
 		if d.time > d.now {
 			out.Violation("C12/early-dispatch", op, fmt.Sprintf("message %d scheduled for %d dispatched at %d", d.msg, d.time, d.now))
 		}
@@ -928,13 +1655,45 @@ func c12Monitor(w *c12World, op string) {
 			out.Violation("C12/dispatch-after-close", op, fmt.Sprintf("message %d dispatched after Close returned", d.msg))
 		}
 	}
+	for e, n := range w.pushedE {
+		pushes[e.msg] += n
+	}
+	var ents []c12Ent
+	for e := range w.pushedE {
+		ents = append(ents, e)
+	}
+	for e := range dispE {
+		if w.pushedE[e] == 0 {
+			ents = append(ents, e)
+		}
+	}
+	sort.Slice(ents, func(i, j int) bool {
+		if ents[i].msg != ents[j].msg {
+			return ents[i].msg < ents[j].msg
+		}
+		return ents[i].time < ents[j].time
+	})
+	for _, e := range ents {
+		p, d, l := w.pushedE[e], dispE[e], left[e]
+		switch {
+		case p == 0:
+			out.Violation("C12/dispatched-not-added", op, fmt.Sprintf("entry %s was dispatched %d times but never put into the wheel", e, d))
+		case d > p:
+			out.Violation("C12/dispatched-twice", op, fmt.Sprintf("entry %s: put into the wheel %d times, dispatched %d times", e, p, d))
+		case d+l < p:
+			out.Violation("C12/never-dispatched", op, fmt.Sprintf("entry %s: put into the wheel %d times, dispatched %d times, %d still in the wheel: it was taken out without being dispatched", e, p, d, l))
+		case w.clo == nil && l > 0:
+			out.Violation("C12/never-dispatched", op, fmt.Sprintf("entry %s is still in the wheel and nothing is left to run (no shutdown)", e))
+		}
+	}
+	// … and per message
 	for m, n := range nd {
-		if n > w.pushes[m] {
-			out.Violation("C12/duplicate-dispatch", op, fmt.Sprintf("message %d: %d entries added, %d dispatches", m, w.pushes[m], n))
+		if n > pushes[m] {
+			out.Violation("C12/duplicate-dispatch", op, fmt.Sprintf("message %d: %d entries added, %d dispatches", m, pushes[m], n))
 		}
 	}
 	if w.clo == nil {
-		for m, n := range w.pushes {
+		for m, n := range pushes {
 			if nd[m] != n {
 				out.Violation("C12/missing-dispatch", op, fmt.Sprintf("message %d: %d entries added, %d dispatches, nothing left to run", m, n, nd[m]))
 			}
@@ -978,6 +1737,12 @@ var c12Corpus = []string{
 	"C12 run f 1 1 0:0 t0.0,c,k,k,k,ks,k,c,t0.0,t0.0,t0.0",
 	"C12 run f 2 1 0:1,3:1 t0.0,t1.0,c,t0.0,t1.0,k,k,k,ks,t0.0,t1.0,k,c,c,t0.0,t1.0",
 	"C12 run f 1 0 5:0,2:0 t0.0,t0.0,t0.0,k,k,k,k,ku0,t1.0,t1.0,t1.0,ku1,k,k,k,k,a2,kt,k,k,k,a3,k,k,k,k,kt",
+	// an entry that has to be re-read from the spool is dispatched while its meta-data cannot be read; Close meanwhile
+	"C12 run f 1 1 3:0 t0.0,t0.0,t0.0,k,k,k,k,ku0,a3,kt,k,k,kb1,c,k,k,k,ks,k,c,c,t1.0,c,t1.0,c",
+	"C12 run f 1 0 0:1,4:1 t0.0,t0.0,t0.0,t1.0,t1.0,t1.0,k,k,k,k,ku0,ku1,kt,k,k,kb2,k,t2.0,t2.3,t2.0,t2.0,t2.0,k,k,k,k,ku2,t2.0,a4,kt,k,k,kb3,t3.0,t3.0,k,k,k,k,kt,k,k,kb2,t4.0,t4.0",
+	// an earlier entry is added between the expiry of the timer and the removal of the entry the wheel slept for
+	"C12 run f 2 0 5:0,2:0 t0.0,t0.0,t0.0,k,k,k,k,ku0,a5,kt,t1.0,t1.0,t1.0,k,k,k,ku1,k,k,k,k,kt,k,k,k,t2.0,t3.0",
+	"C12 run f 2 1 5:0,2:0 t0.0,t0.0,t0.0,k,k,k,k,ku0,t1.0,t1.0,t1.0,a5,kt,k,k,k,ku1,k,k,k,k,kt,k,k,k,c,t2.0,t3.0",
 }
 
 func TestVerifC12Sched(t *testing.T) {
@@ -1100,16 +1865,17 @@ func c12RunFree(out *vh.Out, seed uint64) {
 		if err := q.start(capac); err != nil {
 			panic(err)
 		}
-		inner := q.wheel.dispatch
-		q.wheel.dispatch = func(s TimeSlot) {
-			dmu.Lock()
-			dispN++
-			if !s.Time.IsZero() && time.Now().Before(s.Time) {
-				early++
+		c12WrapDispatch(q.wheel, func(inner func(TimeSlot)) func(TimeSlot) {
+			return func(s TimeSlot) {
+				dmu.Lock()
+				dispN++
+				if !s.Time.IsZero() && time.Now().Before(s.Time) {
+					early++
+				}
+				dmu.Unlock()
+				inner(s)
 			}
-			dmu.Unlock()
-			inner(s)
-		}
+		})
 		close(started)
 	})
 	<-started
